@@ -377,4 +377,339 @@ Section Step.
       + rewrite !reset_if_out. reflexivity.
     - intros q Hq. rewrite Hr. exact Hq.
   Qed.
+
+  (** ** remove_source *)
+
+  Lemma remove_file_branch t i it :
+    wf t -> get_slot (slots t) i = Some it ->
+    exists t3,
+      match restart_work (queue_removal t it) i with
+      | Ok t' => Ok (remove_node t' i)
+      | Panic => Panic
+      end = Ok t3 /\
+      wf t3 /\ rmf t3 = (rmf t ++ [i_out it])%list /\ last_hash t3 = last_hash t /\
+      forall j, get_slot (slots t3) j = if Nat.eqb i j then None else get_slot (slots t) j.
+  Proof.
+    intros W Hi. pose proof (get_slot_some_lt _ _ _ Hi) as Hlt.
+    destruct (wf_item _ _ _ _ W _ _ Hi) as [Ho [Hs HE]].
+    assert (Hneq : path_eqb (i_src it) (i_out it) = false).
+    { apply path_eqb_neq. rewrite Ho. eapply source_neq_out; eassumption. }
+    destruct (restart_work_ok inp outp E t i it W Hi) as [ta [Ra [Wa [Hra [Hha [Hfa [_ [_ Hga]]]]]]]].
+    assert (Hia : get_slot (slots ta) i = Some (item_reset it)) by (rewrite Hga, Nat.eqb_refl; reflexivity).
+    destruct (remove_node_ok inp outp io_disjoint1 io_disjoint2 E ta i (item_reset it) Wa Hia eq_refl)
+      as [Wb [Hrb [Hhb [_ Hgb]]]].
+    exists (queue_removal (remove_node ta i) (item_reset it)). split.
+    - unfold restart_work in Ra. rewrite Hi in Ra. inversion Ra as [Hta]. clear Ra.
+      unfold queue_removal at 1. rewrite Hneq. unfold restart_work. cbn [slots set_rmf]. rewrite Hi.
+      unfold remove_node. cbn [slots set_slots set_ext set_rmf].
+      rewrite get_set_slot_same by exact Hlt.
+      unfold queue_removal. cbn [i_src i_out item_reset]. rewrite Hneq.
+      reflexivity.
+    - split; [exact Wb|]. split; [rewrite Hrb, Hra; reflexivity|]. split; [congruence|].
+      intros j. rewrite Hgb, Hga. destruct (Nat.eqb i j); reflexivity.
+  Qed.
+
+  (** what both arms of [remove_source] establish before the dependents are restarted *)
+  Lemma remove_source_finish c0 d u w p tn (removed : nat -> bool) :
+    inv c0 d u w -> wf tn ->
+    last_hash tn = last_hash (w_tree w) ->
+    (forall j, get_slot (slots tn) j = if removed j then None else get_slot (slots (w_tree w)) j) ->
+    (forall j it, get_slot (slots (w_tree w)) j = Some it -> removed j = true ->
+                  starts_with p (i_src it) = true /\ In (i_out it) (rmf tn)) ->
+    (forall j it, get_slot (slots (w_tree w)) j = Some it -> starts_with p (i_src it) = true ->
+                  removed j = true) ->
+    (forall q, In q (rmf (w_tree w)) -> In q (rmf tn)) ->
+    exists t', update_external_dependencies tn p = Ok t' /\
+               inv c0 (track cfg inp u d (RemoveSrc p)) u (mkWorld (w_fs w) (w_cfg w) t').
+  Proof.
+    intros I Wn Hh Hgn Hrem1 Hrem2 Hrmf. set (t := w_tree w) in *.
+    destruct (restart_all_ok inp outp E tn (ext_get (ext tn) p) Wn (ext_occupied inp outp E tn p Wn))
+      as [t' [R [W' [Hr' [Hh' [_ [_ [_ Hg']]]]]]]].
+    exists t'. split; [exact R|].
+    assert (Hitem : forall j it2, get_slot (slots t') j = Some it2 ->
+                                  exists it, get_slot (slots t) j = Some it /\ removed j = false /\
+                                             it2 = reset_if (mem_nat j (ext_get (ext tn) p)) it).
+    { intros j it2 Hj. rewrite Hg', Hgn in Hj. destruct (removed j); [discriminate|].
+      destruct (get_slot (slots t) j) as [it|]; [|discriminate]. cbn in Hj. inversion Hj. eauto. }
+    assert (Hsurv : forall j it, get_slot (slots t) j = Some it -> removed j = false ->
+                                 starts_with p (i_src it) = false).
+    { intros j it Hj Hr. destruct (starts_with p (i_src it)) eqn:Es; [|reflexivity].
+      rewrite (Hrem2 _ _ Hj Es) in Hr. discriminate. }
+    assert (Hcov : forall j it, get_slot (slots t) j = Some it -> removed j = false ->
+                                covered (drop p (dR d)) (i_src it) = false -> covered (dR d) (i_src it) = false).
+    { intros j it Hj Hr Hc. apply covered_false. intros r Hin.
+      destruct (path_eq_dec r p) as [->|Hne]; [eapply Hsurv; eassumption|].
+      rewrite covered_false in Hc. apply Hc. apply drop_In. auto. }
+    apply inv_tree_change with (d := d); try assumption.
+    - rewrite Hh', Hh. reflexivity.
+    - intros j it2 Hj Hd. destruct (Hitem _ _ Hj) as [it [Hs [Hr ->]]].
+      apply reset_if_done in Hd as [-> Hd]. exact Hs.
+    - intros j it2 Hj Hd [Hc1 [Hc2 Hc3]]. cbn [track dC dR] in *.
+      destruct (Hitem _ _ Hj) as [it [Hs [Hr Heq]]]. subst it2.
+      apply reset_if_done in Hd as [Hb Hd]. rewrite Hb in *. cbn [reset_if] in *.
+      split; [|split].
+      + intros Hin. destruct (path_eq_dec (i_src it) p) as [Heq|Hne].
+        * pose proof (Hsurv _ _ Hs Hr) as Hsw. rewrite Heq, starts_with_refl in Hsw. discriminate.
+        * apply Hc1. apply drop_In. auto.
+      + eapply Hcov; eassumption.
+      + intros x Hx Hin. destruct (path_eq_dec x p) as [Heq|Hne].
+        * subst x. assert (Hsn : get_slot (slots tn) j = Some it) by (rewrite Hgn, Hr; exact Hs).
+          pose proof (wf_linked _ _ _ _ Wn _ _ _ Hsn Hx) as Hl. apply mem_nat_In in Hl. congruence.
+        * apply (Hc3 x Hx). apply drop_In. auto.
+    - intros j it2 Hj Hc. cbn [track dR] in Hc. destruct (Hitem _ _ Hj) as [it [Hs [Hr ->]]].
+      rewrite reset_if_src in *. eapply (inv_exists _ _ _ _ I); [exact Hs|]. eapply Hcov; eassumption.
+    - intros q Hq Hex Hn. cbn [track dN] in Hn.
+      assert (Hn2 : ~ In q (dN d)) by (intros H; apply Hn; apply in_or_app; right; exact H).
+      pose proof (inv_hasitem _ _ _ _ I q Hq Hex Hn2) as Hnode.
+      apply node_of_ne_none in Hnode as [i [it [Hi Hsrc]]]. fold t in Hi.
+      destruct (removed i) eqn:Er.
+      + exfalso. apply Hn. apply in_or_app. left. apply filter_In.
+        destruct (Hrem1 _ _ Hi Er) as [Hsw _]. rewrite Hsrc in Hsw. split; [|exact Hsw].
+        apply fs_collect_spec. unfold Worker.is_source in Hq. apply andb_true_iff in Hq as [Hq1 Hq2].
+        split; [|auto]. rewrite <- (inv_user _ _ _ _ I); [exact Hex|].
+        eapply source_not_out; try eassumption. unfold Worker.is_source. rewrite Hq1, Hq2. reflexivity.
+      + eapply node_of_exists with (i := i).
+        * rewrite Hg', Hgn, Er, Hi. reflexivity.
+        * rewrite reset_if_src. exact Hsrc.
+    - intros j it Hj. fold t in Hj. destruct (removed j) eqn:Er.
+      + right. rewrite Hr'. apply (Hrem1 _ _ Hj Er).
+      + left. exists j. eexists. split; [rewrite Hg', Hgn, Er, Hj; reflexivity|].
+        rewrite reset_if_out. reflexivity.
+    - intros q Hq. rewrite Hr'. apply Hrmf. exact Hq.
+  Qed.
+
+  Lemma step_RemoveSrc c0 d u w p :
+    inv c0 d u w -> dir_event_ok cfg (w_tree w) (RemoveSrc p) = true ->
+    exists t', remove_source (w_tree w) p = Ok t' /\
+               inv c0 (track cfg inp u d (RemoveSrc p)) u (mkWorld (w_fs w) (w_cfg w) t').
+  Proof.
+    intros I Hok. pose proof (inv_wf _ _ _ _ I) as W. set (t := w_tree w) in *.
+    unfold remove_source. fold t. destruct (node_of t p) as [i|] eqn:En.
+    - (* the path is a work item *)
+      destruct (node_of_some _ _ _ En) as [it [Hi Hsrc]]. rewrite Hi.
+      destruct (remove_file_branch t i it W Hi) as [t3 [R3 [W3 [Hr3 [Hh3 Hg3]]]]]. rewrite R3.
+      apply (remove_source_finish c0 d u w p t3 (Nat.eqb i)); try assumption.
+      + intros j itj Hj Er. apply Nat.eqb_eq in Er. subst j. fold t in Hj. rewrite Hi in Hj. inversion Hj; subst itj.
+        split; [rewrite Hsrc; apply starts_with_refl|]. rewrite Hr3. apply in_or_app. right. left. reflexivity.
+      + intros j itj Hj Hsw. fold t in Hj. apply Nat.eqb_eq.
+        destruct (wf_item _ _ _ _ W _ _ Hi) as [_ [_ HE1]]. destruct (wf_item _ _ _ _ W _ _ Hj) as [_ [_ HE2]].
+        rewrite Hsrc in HE1. pose proof (E_nonest _ _ HE1 HE2 Hsw) as Heq.
+        eapply (wf_nodup _ _ _ _ W); [exact Hi|exact Hj|congruence].
+      + intros q Hq. rewrite Hr3. apply in_or_app. left. exact Hq.
+    - (* a directory (or nothing) *)
+      set (idxs := nodes_under (slots t) p 0).
+      assert (Hd : forall j it, In j idxs -> get_slot (slots t) j = Some it -> i_deps it = []).
+      { intros j it Hj Hs. cbn [dir_event_ok] in Hok. fold t in Hok. rewrite En in Hok.
+        rewrite forallb_forall in Hok.
+        assert (Hin : In it (all_items t)) by (apply all_items_spec; eauto).
+        specialize (Hok _ Hin). apply orb_true_iff in Hok as [Hok|Hok].
+        - apply nodes_under_in in Hj as [it' [Hs' Hsw]]. rewrite Hs in Hs'. inversion Hs'; subst it'.
+          rewrite Hsw in Hok. discriminate.
+        - destruct (i_deps it); [reflexivity|discriminate]. }
+      destruct (remove_nodes_ok inp outp io_disjoint1 io_disjoint2 E idxs t W Hd) as [Wn [Hhn [_ [Hgn Hrn]]]].
+      apply (remove_source_finish c0 d u w p (remove_nodes t idxs) (fun j => mem_nat j idxs)); try assumption.
+      + intros j itj Hj Er. fold t in Hj. apply mem_nat_In in Er.
+        pose proof Er as Er'. apply nodes_under_in in Er' as [it' [Hs' Hsw]]. rewrite Hj in Hs'. inversion Hs'; subst it'.
+        split; [exact Hsw|]. apply Hrn. right. exists j, itj. auto.
+      + intros j itj Hj Hsw. fold t in Hj. apply mem_nat_In. apply nodes_under_in. eauto.
+      + intros q Hq. apply Hrn. left. exact Hq.
+  Qed.
+
+  (** ** add_source *)
+
+  Lemma step_AddSrc c0 d u w p :
+    inv c0 d u w -> fs_is_file u p = true -> is_source p = true ->
+    exists t', add_source (w_tree w) p (out_of p) = Ok t' /\
+               inv c0 (track cfg inp u d (AddSrc p)) u (mkWorld (w_fs w) (w_cfg w) t').
+  Proof.
+    intros I Hfile Hsrc. pose proof (inv_wf _ _ _ _ I) as W. set (t := w_tree w) in *.
+    assert (Hup : fs_get u p <> None) by (unfold fs_is_file in Hfile; destruct (fs_get u p); [discriminate|discriminate]).
+    assert (HE : In p E) by (apply (inv_ufs_E _ _ _ _ I); exact Hup).
+    assert (Hfp : fs_get (w_fs w) p <> None).
+    { rewrite (inv_user _ _ _ _ I); [exact Hup|]. eapply source_not_out; eassumption. }
+    destruct (restart_all_ok inp outp E t (ext_get (ext t) p) W (ext_occupied inp outp E t p W))
+      as [t1 [R1 [W1 [Hr1 [Hh1 [_ [_ [_ Hg1]]]]]]]].
+    unfold add_source, update_external_dependencies. fold t. rewrite R1.
+    assert (Hitem1 : forall j it1, get_slot (slots t1) j = Some it1 ->
+                                   exists it, get_slot (slots t) j = Some it /\
+                                              it1 = reset_if (mem_nat j (ext_get (ext t) p)) it).
+    { intros j it1 Hj. rewrite Hg1 in Hj. destruct (get_slot (slots t) j) as [it|]; [|discriminate].
+      cbn in Hj. inversion Hj. eauto. }
+    (* the items that could be clean again only because [p] left the dirty sets were restarted *)
+    assert (Hdeps : forall j it, get_slot (slots t) j = Some it -> mem_nat j (ext_get (ext t) p) = false ->
+                                 ~ In p (i_deps it)).
+    { intros j it Hj Hm Hin. pose proof (wf_linked _ _ _ _ W _ _ _ Hj Hin) as Hl.
+      apply mem_nat_In in Hl. congruence. }
+    destruct (node_of t1 p) as [i|] eqn:En.
+    - (* already a work item: restart it *)
+      destruct (node_of_some _ _ _ En) as [it1 [Hi1 Hs1]].
+      destruct (restart_work_ok inp outp E t1 i it1 W1 Hi1) as [t2 [R2 [W2 [Hr2 [Hh2 [_ [_ [_ Hg2]]]]]]]].
+      exists t2. split; [exact R2|].
+      apply inv_tree_change with (d := d); try assumption.
+      + rewrite Hh2, Hh1. reflexivity.
+      + intros j it2 Hj Hd. rewrite Hg2 in Hj. destruct (Nat.eqb i j); [inversion Hj; subst; discriminate|].
+        destruct (Hitem1 _ _ Hj) as [it [Hs ->]]. apply reset_if_done in Hd as [-> _]. exact Hs.
+      + intros j it2 Hj Hd [Hc1 [Hc2 Hc3]]. cbn [track dC dR] in *.
+        rewrite Hg2 in Hj. destruct (Nat.eqb i j) eqn:Eij; [inversion Hj; subst; discriminate|].
+        destruct (Hitem1 _ _ Hj) as [it [Hs Heq]]. subst it2.
+        apply reset_if_done in Hd as [Hb Hd]. rewrite Hb in *. cbn [reset_if] in *.
+        split; [|split; [exact Hc2|]].
+        * intros Hin. destruct (path_eq_dec (i_src it) p) as [Heq|Hne].
+          -- exfalso. apply Nat.eqb_neq in Eij. apply Eij.
+             eapply (wf_nodup _ _ _ _ W1); [exact Hi1|exact Hj|]. cbn [reset_if]. congruence.
+          -- apply Hc1. apply drop_In. auto.
+        * intros x Hx Hin. destruct (path_eq_dec x p) as [->|Hne]; [eapply Hdeps; eassumption|].
+          apply (Hc3 x Hx). apply drop_In. auto.
+      + intros j it2 Hj Hc. cbn [track dR] in Hc. rewrite Hg2 in Hj. destruct (Nat.eqb i j) eqn:Eij.
+        * inversion Hj; subst it2. cbn [item_reset i_src]. rewrite Hs1. exact Hfp.
+        * destruct (Hitem1 _ _ Hj) as [it [Hs ->]]. rewrite reset_if_src in *.
+          eapply (inv_exists _ _ _ _ I); eassumption.
+      + intros q Hq Hex Hn. cbn [track dN] in Hn.
+        destruct (path_eq_dec q p) as [->|Hne].
+        * eapply node_of_exists with (i := i); [rewrite Hg2, Nat.eqb_refl; reflexivity|exact Hs1].
+        * assert (Hn2 : ~ In q (dN d)) by (intros H; apply Hn; apply drop_In; auto).
+          pose proof (inv_hasitem _ _ _ _ I q Hq Hex Hn2) as Hnode.
+          apply node_of_ne_none in Hnode as [k [it [Hk Hsk]]]. fold t in Hk.
+          destruct (Nat.eqb i k) eqn:Eik.
+          -- apply Nat.eqb_eq in Eik. subst k. rewrite Hg1, Hk in Hi1. cbn in Hi1. inversion Hi1; subst it1.
+             rewrite reset_if_src in Hs1. congruence.
+          -- eapply node_of_exists with (i := k).
+             ++ rewrite Hg2, Eik, Hg1, Hk. reflexivity.
+             ++ rewrite reset_if_src. exact Hsk.
+      + intros j it Hj. fold t in Hj. left. exists j. destruct (Nat.eqb i j) eqn:Eij.
+        * apply Nat.eqb_eq in Eij. subst j. exists (item_reset it1). split; [rewrite Hg2, Nat.eqb_refl; reflexivity|].
+          rewrite Hg1, Hj in Hi1. cbn in Hi1. inversion Hi1; subst it1.
+          cbn [item_reset i_out]. rewrite reset_if_out. reflexivity.
+        * eexists. split; [rewrite Hg2, Eij, Hg1, Hj; reflexivity|]. rewrite reset_if_out. reflexivity.
+      + intros q Hq. rewrite Hr2, Hr1. exact Hq.
+    - (* a new work item *)
+      destruct (insert_source_ok inp outp E t1 p W1 En Hsrc HE) as [W2 [Hr2 [Hh2 [_ [k [Hk Hg2]]]]]].
+      eexists. split; [reflexivity|].
+      apply inv_tree_change with (d := d); try assumption.
+      + rewrite Hh2, Hh1. reflexivity.
+      + intros j it2 Hj Hd. rewrite Hg2 in Hj. destruct (Nat.eqb k j); [inversion Hj; subst; discriminate|].
+        destruct (Hitem1 _ _ Hj) as [it [Hs ->]]. apply reset_if_done in Hd as [-> _]. exact Hs.
+      + intros j it2 Hj Hd [Hc1 [Hc2 Hc3]]. cbn [track dC dR] in *.
+        rewrite Hg2 in Hj. destruct (Nat.eqb k j) eqn:Ekj; [inversion Hj; subst; discriminate|].
+        destruct (Hitem1 _ _ Hj) as [it [Hs Heq]]. subst it2.
+        apply reset_if_done in Hd as [Hb Hd]. rewrite Hb in *. cbn [reset_if] in *.
+        split; [|split; [exact Hc2|]].
+        * intros Hin. destruct (path_eq_dec (i_src it) p) as [Heq|Hne].
+          -- exfalso. eapply node_of_none; [exact En|exact Hj|]. cbn [reset_if]. exact Heq.
+          -- apply Hc1. apply drop_In. auto.
+        * intros x Hx Hin. destruct (path_eq_dec x p) as [->|Hne]; [eapply Hdeps; eassumption|].
+          apply (Hc3 x Hx). apply drop_In. auto.
+      + intros j it2 Hj Hc. cbn [track dR] in Hc. rewrite Hg2 in Hj. destruct (Nat.eqb k j) eqn:Ekj.
+        * inversion Hj; subst it2. cbn [i_src]. exact Hfp.
+        * destruct (Hitem1 _ _ Hj) as [it [Hs ->]]. rewrite reset_if_src in *.
+          eapply (inv_exists _ _ _ _ I); eassumption.
+      + intros q Hq Hex Hn. cbn [track dN] in Hn.
+        destruct (path_eq_dec q p) as [->|Hne].
+        * eapply node_of_exists with (i := k); [rewrite Hg2, Nat.eqb_refl; reflexivity|reflexivity].
+        * assert (Hn2 : ~ In q (dN d)) by (intros H; apply Hn; apply drop_In; auto).
+          pose proof (inv_hasitem _ _ _ _ I q Hq Hex Hn2) as Hnode.
+          apply node_of_ne_none in Hnode as [i [it [Hi Hsi]]]. fold t in Hi.
+          assert (Hki : Nat.eqb k i = false).
+          { apply Nat.eqb_neq. intros ->. rewrite Hg1, Hi in Hk. discriminate. }
+          eapply node_of_exists with (i := i).
+          -- rewrite Hg2, Hki, Hg1, Hi. reflexivity.
+          -- rewrite reset_if_src. exact Hsi.
+      + intros j it Hj. fold t in Hj. left. exists j. eexists. split.
+        * rewrite Hg2. assert (Hkj : Nat.eqb k j = false).
+          { apply Nat.eqb_neq. intros ->. rewrite Hg1, Hj in Hk. discriminate. }
+          rewrite Hkj, Hg1, Hj. reflexivity.
+        * rewrite reset_if_out. reflexivity.
+      + intros q Hq. rewrite Hr2, Hr1. exact Hq.
+  Qed.
+
+  (** ** collect_work *)
+
+  Lemma collect_fold_ok l : forall t,
+    wf t -> (forall q, In q l -> is_source q = true /\ In q E) ->
+    let t' := fold_left (fun t q => add_source_if_missing t q (out_of q)) l t in
+    wf t' /\ rmf t' = rmf t /\ last_hash t' = last_hash t /\
+    (forall j it, get_slot (slots t) j = Some it -> get_slot (slots t') j = Some it) /\
+    (forall j it', get_slot (slots t') j = Some it' ->
+                   get_slot (slots t) j = Some it' \/
+                   exists q, In q l /\ it' = mkItem q (out_of q) NotStarted []) /\
+    (forall q, In q l -> node_of t' q <> None).
+  Proof.
+    induction l as [|q l IH]; intros t W Hl; cbn [fold_left].
+    - cbn. split; [exact W|]. repeat split; auto.
+    - assert (Hq : is_source q = true /\ In q E) by (apply Hl; left; reflexivity).
+      assert (Hl' : forall q', In q' l -> is_source q' = true /\ In q' E) by (intros q' H; apply Hl; right; exact H).
+      destruct (node_of t q) as [i|] eqn:En.
+      + assert (Hsame : add_source_if_missing t q (out_of q) = t)
+          by (unfold add_source_if_missing; rewrite En; reflexivity).
+        rewrite Hsame.
+        destruct (IH t W Hl') as [W' [Hr [Hh [Hold [Hnew Hnode]]]]]. cbn zeta in *.
+        split; [exact W'|]. split; [exact Hr|]. split; [exact Hh|]. split; [exact Hold|]. split.
+        * intros j it' Hj. destruct (Hnew _ _ Hj) as [H|[q' [H1 H2]]]; [left; exact H|].
+          right. exists q'. split; [right; exact H1|exact H2].
+        * intros q' [<-|Hin]; [|apply Hnode; exact Hin].
+          apply node_of_some in En as [it [Hi Hs]]. eapply node_of_exists; [apply Hold; exact Hi|exact Hs].
+      + assert (Hsame : add_source_if_missing t q (out_of q) = insert_source t q (out_of q))
+          by (unfold add_source_if_missing; rewrite En; reflexivity).
+        rewrite Hsame.
+        destruct Hq as [Hq1 Hq2].
+        destruct (insert_source_ok inp outp E t q W En Hq1 Hq2) as [W1 [Hr1 [Hh1 [_ [k [Hk Hg1]]]]]].
+        set (t1 := insert_source t q (out_of q)) in *.
+        destruct (IH t1 W1 Hl') as [W' [Hr [Hh [Hold [Hnew Hnode]]]]]. cbn zeta in *.
+        split; [exact W'|]. split; [congruence|]. split; [congruence|]. split; [|split].
+        * intros j it Hj. apply Hold. rewrite Hg1. destruct (Nat.eqb k j) eqn:Ekj; [|exact Hj].
+          apply Nat.eqb_eq in Ekj. subst j. congruence.
+        * intros j it' Hj. destruct (Hnew _ _ Hj) as [H|[q' [H1 H2]]].
+          -- rewrite Hg1 in H. destruct (Nat.eqb k j); [|left; exact H].
+             inversion H. right. exists q. split; [left; reflexivity|reflexivity].
+          -- right. exists q'. split; [right; exact H1|exact H2].
+        * intros q' [<-|Hin]; [|apply Hnode; exact Hin].
+          eapply node_of_exists with (i := k); [apply Hold; rewrite Hg1, Nat.eqb_refl; reflexivity|reflexivity].
+  Qed.
+
+  Lemma step_Collect c0 d u w :
+    inv c0 d u w ->
+    inv c0 (track cfg inp u d (Collect)) u
+        (mkWorld (w_fs w) (w_cfg w) (collect_work inp outp (w_tree w) (w_fs w))).
+  Proof.
+    intros I. pose proof (inv_wf _ _ _ _ I) as W. set (t := w_tree w) in *.
+    assert (Hl : forall q, In q (fs_collect (w_fs w) inp) ->
+                           is_source q = true /\ In q E /\ fs_get (w_fs w) q <> None).
+    { intros q Hq. apply fs_collect_spec in Hq as [H1 [H2 H3]].
+      assert (Hs : is_source q = true) by (unfold Worker.is_source; rewrite H2, H3; reflexivity).
+      split; [exact Hs|]. split; [|exact H1]. apply (inv_ufs_E _ _ _ _ I).
+      rewrite <- (inv_user _ _ _ _ I); [exact H1|]. eapply source_not_out; eassumption. }
+    destruct (collect_fold_ok (fs_collect (w_fs w) inp) t W) as [W' [Hr [Hh [Hold [Hnew Hnode]]]]].
+    { intros q Hq. destruct (Hl q Hq) as [H1 [H2 _]]. auto. }
+    unfold collect_work. cbn zeta in *.
+    apply inv_tree_change with (d := d); try assumption.
+    - intros j it' Hj Hd. destruct (Hnew _ _ Hj) as [H|[q [_ ->]]]; [exact H|discriminate].
+    - intros j it' Hj Hd Hc. exact Hc.
+    - intros j it' Hj Hc. cbn [track dR] in Hc. destruct (Hnew _ _ Hj) as [H|[q [Hq ->]]].
+      + eapply (inv_exists _ _ _ _ I); eassumption.
+      + cbn [i_src]. apply (Hl q Hq).
+    - intros q Hq Hex _. apply Hnode. apply fs_collect_spec.
+      unfold Worker.is_source in Hq. apply andb_true_iff in Hq as [H1 H2]. auto.
+    - intros j it Hj. left. exists j, it. split; [apply Hold; exact Hj|reflexivity].
+    - intros q Hq. rewrite Hr. exact Hq.
+  Qed.
+
+  (** ** snapshot_output_structure, configuration change *)
+
+  Lemma wf_set_snap t s : wf t -> wf (set_snap t s).
+  Proof. intros [H1 H2 H3 H4 H5 H6 H7 H8 H9]. constructor; assumption. Qed.
+
+  Lemma step_Snapshot c0 d u w :
+    inv c0 d u w ->
+    inv c0 d u (mkWorld (w_fs w) (w_cfg w) (snapshot_output_structure outp (w_tree w) (w_fs w))).
+  Proof.
+    intros I. unfold snapshot_output_structure.
+    destruct (snap (w_tree w)); [destruct w; exact I|].
+    destruct (fs_is_file (w_fs w) outp && fs_is_dir (w_fs w) outp); [|destruct w; exact I].
+    destruct I as [I1 I2 I3 I4 I5 I6 I7 I8 I9]. constructor; cbn [w_tree w_fs] in *; try assumption.
+    apply wf_set_snap. exact I1.
+  Qed.
+
+  Lemma step_SetCfg c0 d u w c :
+    inv c0 d u w -> inv c0 d u (mkWorld (w_fs w) c (w_tree w)).
+  Proof. intros [I1 I2 I3 I4 I5 I6 I7 I8 I9]. constructor; assumption. Qed.
 End Step.
